@@ -1,0 +1,6 @@
+//go:build !verif
+// +build !verif
+
+package linker
+
+func verifLinkDone(c *linkerContext) {}
